@@ -44,8 +44,11 @@ RULE = (
     "partial frame, TCP eof/reset/half-close) and its reactions (answer ping or not; close: echo / other code / late / "
     "never / drop TCP) x faults (reset/eof before loop step k or at byte k, cancel of an actor before step k, peer stops "
     "reading for a while) x finale (kill, peer close, application close, none), segmentation, latency and timer/I-O "
-    "tie-breaks from the tape. Non-trivial: a session was established AND at least two of {close() issued while a "
-    "receive() was pending, peer close frame delivered, kill fired, cancel fired inside a pending call, a timer "
+    "tie-breaks from the tape; in 8 % of the runs one side has autoclose off and its first task, once handed the peer's "
+    "CLOSE, lingers 12-500 ms before close() / returning / the next receive() while heartbeat and receive timers are "
+    "armed. Non-trivial: a session was established AND at least two of {close() issued while a "
+    "receive() was pending, peer close frame delivered, peer close frame handed to the application with the session "
+    "left open (autoclose off), kill fired, cancel fired inside a pending call, a timer "
     "(receive/close/pong) expired, protocol garbage delivered}. Distinct = interleaving signature."
 )
 COMPONENTS = {
@@ -65,6 +68,9 @@ ASSUMPTIONS = [
     "runs with a peer that stops reading are exempt from the close-time and transport-closed-in-time bounds",
     "close_code is judged strictly only when nothing abnormal happened (no kill, cancel, garbage, hold, peer TCP action, "
     "timeout race); after an abnormal event the peer's code and 1006 are both accepted when a peer close frame arrived",
+    "a pong timeout, or a session that never sent a close frame (raw-peer worlds), excuses 1006 only until the peer's "
+    "close frame has been handed to the application with the session left open (autoclose off) and nothing follows that "
+    "frame on the wire: from then on the peer owes no pong and only the application's close() may end the session",
     "three SimNet gaps are worked around inside the run: a closing transport with unflushed output whose peer is gone, or "
     "that is killed with 'eof', never got connection_lost (props/c13.py finishes that close itself); a paused writer "
     "whose pipe was emptied by the reader's close never got resume_writing (props/c13.py calls it)",
@@ -206,7 +212,59 @@ def gen(rng, tier, index):
     whats = ["kill_reset", "kill_eof", "peer_close", "app_close_srv", "app_close_cli", "none"]
     scn["finale"] = {"t": rng.choice([30, 80, 150, 300]), "what": rng.choice(whats),
                      "end": rng.choice(["c", "s"])}
+    # drawn last so that every other scenario keeps the shape it had before this feature existed
+    if rng.random() < 0.08:
+        _slow_close_reply(rng, scn)
     return scn
+
+
+LINGER = [12, 25, 40, 60, 100, 200, 500]
+
+
+def _slow_close_reply(rng, scn):
+    """The application is handed the peer's CLOSE with autoclose off and takes its time (clean-up work) before it
+    answers with its own close() / returns from the handler / calls receive() again: the session sits in the closing
+    state, with whatever timers it has armed, for 12-500 ms while the peer - which owes nothing after its close frame -
+    stays silent."""
+    real = [s for s in ("srv", "cli") if s in scn]
+    sd = rng.choice(real)
+    s = scn[sd]
+    s["autoclose"] = False
+    s["heartbeat"] = rng.choice([0.02, 0.02, 0.05, 0.05, 0.3, None])
+    s["receive_timeout"] = rng.choice([None, None, None, 0.03, 0.1])
+    ops = [[0, "iter", None]] if rng.random() < 0.3 else [[0, "receive", None] for _ in range(rng.randint(1, 3))]
+    linger = rng.choice(LINGER)
+    how = rng.choice(["close", "close", "return", "receive"])
+    if how == "close":
+        ops.append([linger, "close", rng.choice(CLOSE_CODES[:-1])])
+    elif how == "return":
+        ops.append([linger, "sleep", None])  # the handler / task just ends: the implicit close of write_eof (server)
+    else:
+        ops.append([linger, "receive", None])
+    first = {"ops": ops, "finally_close": rng.random() < 0.2, "role": "slow_close_reply"}
+    keep = s["actors"][1:] if rng.random() < 0.35 else []
+    if keep and rng.random() < 0.5:
+        # the other tasks only send: they do not take the close() away from the lingering task
+        keep = [dict(a, ops=[o for o in a["ops"] if o[1] in ("send_str", "send_bytes", "ping", "pong")] or [[5, "ping", 3]],
+                     finally_close=False) for a in keep]
+    s["actors"] = [first] + keep
+    when = rng.choice([1, 5, 10, 20])
+    code = rng.choice(CLOSE_CODES)
+    if "peer" in scn:
+        p = scn["peer"]
+        p["script"] = [a for a in p["script"] if a[1] not in ("tcp_eof", "tcp_reset", "half_close", "partial")][:3]
+        if not any(a[1] == "close" for a in p["script"]):
+            p["script"].append([when, "close", code])
+    else:
+        other = scn["cli" if sd == "srv" else "srv"]
+        other["close_timeout"] = rng.choice([1.0, 1.0, other["close_timeout"]])
+        if not any(o[1] == "close" for a in other["actors"] for o in a["ops"]):
+            other["actors"] = other["actors"][:2] + [{"ops": [[when, "close", code or 1000]], "finally_close": False,
+                                                       "role": "closer"}]
+    if rng.random() < 0.6:
+        scn["faults"] = []
+    if rng.random() < 0.6:
+        scn["finale"]["what"] = "none"
 
 
 def _case(world, srv=None, cli=None, peer=None, faults=(), finale=("none", 200), lat=0):
@@ -251,6 +309,17 @@ def enumerate_cases(tier, seed):
                 yield mk({"autoclose": ac, "actors": [[[0, "iter", None]]]}, peer={"script": [[5, "close", code]]})
                 # our close crossing the peer's close
                 yield mk({"autoclose": ac, "actors": [rd, [[5, "close", 1001]]]}, peer={"script": [[5, "close", code]]})
+        for hb in (0.02, 0.05, None):
+            for linger in (10, 35, 90, 200):
+                for code in (1000, 4000):
+                    # autoclose off: the application is handed the peer's CLOSE and answers after `linger` ms of its
+                    # own work (close() / handler returns / receive() again) while the heartbeat of the session is armed
+                    pc = {"script": [[5, "close", code]], "tcp_after_close": "keep" if code == 1000 else "close"}
+                    yield mk({"autoclose": False, "heartbeat": hb, "actors": [rd[:1] + [[linger, "close", 1000]]]}, peer=pc)
+                    yield mk({"autoclose": False, "heartbeat": hb, "actors": [rd[:1] + [[linger, "sleep", None]]]}, peer=pc)
+                    yield mk({"autoclose": False, "heartbeat": hb, "actors": [[[0, "iter", None], [linger, "receive", None]]]}, peer=pc)
+                    yield mk({"autoclose": False, "heartbeat": hb, "actors": [rd[:1] + [[linger, "close", 1000]], [[8, "ping", 3]]]},
+                             peer=dict(pc, answer_ping=False))
         for hb in (0.02, 0.3):
             for ap in (True, False):
                 # heartbeat against a peer that answers / never answers pings
@@ -301,6 +370,13 @@ def enumerate_cases(tier, seed):
         yield mk({"actors": [[[0, "receive_t", 20], [0, "close", 1000]]]}, peer={"script": [[40, "close", 1000]]})
         # receive() times out, the peer's close arrives, the application closes afterwards
         yield mk({"actors": [[[0, "receive_t", 5], [30, "close", 1000]]]}, peer={"script": [[10, "close", 3000]]})
+    for hb in (0.02, 0.05):
+        for linger in (35, 90):
+            # both ends real: one closes and waits up to 1 s for the reply, the other (autoclose off, heartbeat) answers late
+            slow = {"autoclose": False, "heartbeat": hb, "actors": [rd[:1] + [[linger, "close", 1000]]]}
+            fast = {"close_timeout": 1.0, "actors": [[[5, "close", 4000]]]}
+            yield _case("CS", srv=slow, cli=fast)
+            yield _case("CS", cli=slow, srv=fast)
     for d in (0, 1, 5):
         for ac in (True, False):
             yield _case("CS", srv={"autoclose": ac, "actors": [rd, [[d, "close", 4000]]]}, cli=dict(idle, autoclose=ac))
@@ -310,7 +386,8 @@ def enumerate_cases(tier, seed):
 
 
 ENUM_RULE = ("directed cases: close() from a second task during a blocked receive() x peer reaction; peer-initiated and "
-             "crossing closes x autoclose; heartbeat vs. (un)answered pings; reset/eof/cancel before each of ~30 steps "
+             "crossing closes x autoclose; autoclose off x heartbeat x 10-200 ms between the peer's CLOSE and the "
+             "application's close()/return/receive(); heartbeat vs. (un)answered pings; reset/eof/cancel before each of ~30 steps "
              "around a close handshake; each garbage class; chatty peer during close; receive timeouts")
 ENUM_SHARE = 0.25
 
@@ -347,6 +424,10 @@ def shrink(scn):
             for j, o in enumerate(ops):
                 if o[0]:
                     na = dict(a, ops=ops[:j] + [[0, o[1], o[2]]] + ops[j + 1:])
+                    yield dict(scn, **{sd: dict(s, actors=acts[:i] + [na] + acts[i + 1:])})
+                if o[0] > 20:
+                    # a long pause between two calls (lingering before close()): try half of it
+                    na = dict(a, ops=ops[:j] + [[o[0] // 2, o[1], o[2]]] + ops[j + 1:])
                     yield dict(scn, **{sd: dict(s, actors=acts[:i] + [na] + acts[i + 1:])})
         for k, v in (("heartbeat", None), ("receive_timeout", None), ("autoclose", True), ("autoping", True),
                      ("join", True), ("handler_cancellation", False), ("close_timeout", 0.05)):
@@ -906,9 +987,25 @@ def run(scn, ch, log=False):
             # ---- close code
             cancelled = getattr(sd, "cancelled", False)
             peer_tcp = peer is not None and peer.tcp_acted
-            abnormal = bool(kills_fired or cancelled or garbage or hold_run or peer_tcp or not closes)
             too_late = (t_pclose is not None and t_our_close is not None and t_pclose - t_our_close >= sd.close_timeout - EPS)
             pong_to = hb and exc is not None and "TimeoutError" in [t.__name__ for t in type(exc).__mro__]
+            # the application was handed the peer's close frame and the session was left open for the application's
+            # own close() (autoclose off): a receive() returned CLOSE, or an async-for ended, with ws.closed still
+            # False (CLOSING/CLOSED only come from a close() that has marked the session closed already).  From
+            # there on the peer owes nothing (it need not answer pings after its close frame), so no timer of the
+            # session may turn the handshake into an abnormal end - unless the peer kept sending after its close
+            # frame (not judged).
+            close_handed = pclose is not None and any(
+                c.out == "ret" and not c.closed0 and c.closed1 is False and t_pclose is not None and c.t1 >= t_pclose
+                and (c.op == "iter" or (c.op in ("receive", "receive_t") and c.detail == "CLOSE")) for c in sd.calls)
+            trailing = pclose is not None and len(rrest) > pclose.end
+            closing_clean = close_handed and not trailing
+            if closing_clean:
+                flags.add("close_handed_to_application")
+            # a session that never sent a close frame is an abnormal end, except when it had the peer's close frame
+            # in hand and only its own timer (or nothing visible on the wire: raw-peer worlds) kept it from replying
+            no_reply_excused = not closes and not (closing_clean and (pong_to or world != "CS"))
+            abnormal = bool(kills_fired or cancelled or garbage or hold_run or peer_tcp or no_reply_excused)
             code = ws.close_code
             if closed and not step_capped and sd.inflight == 0:
                 if pclose is None:
@@ -923,13 +1020,17 @@ def run(scn, ch, log=False):
                 else:
                     pc = pclose.close_code
                     allowed = {pc} if pc is not None else {0, 1005}
-                    if abnormal or too_late or pong_to:
+                    if abnormal or too_late or (pong_to and not closing_clean):
                         allowed = allowed | {1006}
                     if code not in allowed:
                         in_close_wait = _cancelled_in_close_wait(sd)
                         # one discriminating circumstance per key, most specific first
                         if in_close_wait:
                             why = ":after_cancelled_close"
+                        elif code == 1006 and closing_clean and pong_to:
+                            why = ":pong_timeout_after_close_handed_to_application"
+                        elif code == 1006 and closing_clean and not closes:
+                            why = ":no_reply_after_close_handed_to_application"
                         elif code == 1006 and "receive_timeout_fired" in flags:
                             why = ":after_receive_timeout"
                         elif code == 1006 and "two_closes_during_receive" in flags:
